@@ -76,6 +76,8 @@ func implSeq(args []string) string {
 			} else {
 				frames = append(frames, fmt.Sprintf("R%d.%d", f.Serial, tag))
 			}
+		} else if f.ID == 0x8003 {
+			frames = append(frames, fmt.Sprintf("Q%d", f.Serial))
 		} else {
 			frames = append(frames, fmt.Sprintf("W%d.%d", f.Serial, f.ID))
 		}
@@ -91,6 +93,8 @@ func implSeq(args []string) string {
 				t.Send(0x0002, nil)
 			case "f":
 				pendingFrags++
+			case "q":
+				t.Send(0x8003, []byte{0, 1, 1, 0, 2})
 			case "r":
 				typ, _ := strconv.Atoi(m[1])
 				echo, _ := strconv.Atoi(m[2])
@@ -354,7 +358,7 @@ func (g *seqGen) script(n int) {
 					j++
 				}
 			}
-			g.add("x", "rf", "m:o", "rc", "rc", "rc", "ws", "wd")
+			g.add("x", "rf", "m:o", "rc", "rc", "rc", "rc", "ws", "wd")
 			for _, o := range g.out {
 				g.add(fmt.Sprintf("tq:%d", o.id))
 			}
@@ -367,7 +371,14 @@ func (g *seqGen) script(n int) {
 			g.out = nil
 			g.closed = true
 		default:
-			g.hb()
+			if g.joined && g.rng.Intn(2) == 0 { // a 0x8003 from the terminal: reissuePackChan, written back with the next serial
+				g.add("s:q", "rr", "rp", "wr:1", "+f")
+				g.ts++
+				g.ps = (g.ps + 1) % 65536
+				g.what["reissue"] = true
+			} else {
+				g.hb()
+			}
 		}
 	}
 	if !g.closed {
@@ -435,7 +446,7 @@ func replayBatch(par int, jobs []string) string {
 }
 
 func c12(c *Ctx) {
-	c.Rule = "sequential scripts (wseq): random scripts of heartbeats, commands (7 command ids + 0x9003), responses of the 5 echoing types in any order, duplicates, unknown serials, unparsable bodies, 0x1003, timeouts, disconnect, executed step by step on a live server and compared token by token with the model; concurrent scenarios (wexp): 1..8 callers with timeouts 60-600 ms, none, and 0 = the 3 s default, against a scripted terminal (answers delayed/late/twice/unknown/unparsable/never/in 2-4 sub-packages (long 0x1205 0x0805 0x0104 and short bodies cut up, a heartbeat in between and after), 5-8 answers in one TCP segment, heartbeats and location reports in between, serial wrap at 65535, close/RST), the recorded history must be explained by a schedule of the model and pass the direct oracle; the server runs in child processes (a crash is an observation); a case is non-trivial when it contains at least one command written to the terminal; distinct = distinct request lines"
+	c.Rule = "sequential scripts (wseq): random scripts of heartbeats, commands (7 command ids + 0x9003), responses of the 5 echoing types in any order, duplicates, unknown serials, unparsable bodies, 0x1003, timeouts, disconnect, executed step by step on a live server and compared token by token with the model; concurrent scenarios (wexp): 1..8 callers with timeouts 60-600 ms, none, and 0 = the 3 s default, against a scripted terminal (answers delayed/late/twice/unknown/unparsable/never/in 2-4 sub-packages (long 0x1205 0x0805 0x0104 and short bodies cut up, a heartbeat in between and after), 5-8 answers in one TCP segment, heartbeats and location reports in between, serial wrap at 65535, 0x8003 frames and a stalled transfer through reissuePackChan, close/RST; thorough tier: the witnesses of the findings serial-reuse and blocked-write), the recorded history must be explained by a schedule of the model and pass the direct oracle; the server runs in child processes (a crash is an observation); a case is non-trivial when it contains at least one command written to the terminal; distinct = distinct request lines"
 	// ---- jobs
 	nseq := 300
 	if !c.Quick() {
@@ -453,7 +464,7 @@ func c12(c *Ctx) {
 		g.script(6 + g.rng.Intn(14))
 		jobs = append(jobs, jobT{line: "op wseq 0 " + strings.Join(g.toks, " "), what: g.what})
 	}
-	kinds := []string{"frag", "frag", "burst", "burst", "order", "late", "dup", "unknown", "bad", "never", "mixed", "mixed", "attr", "notmo", "prejoin",
+	kinds := []string{"reissue", "frag", "frag", "burst", "burst", "order", "late", "dup", "unknown", "bad", "never", "mixed", "mixed", "attr", "notmo", "prejoin",
 		"close-outstanding", "close-afterresp", "close-queued"}
 	per := 60
 	if !c.Quick() {
@@ -481,6 +492,10 @@ func c12(c *Ctx) {
 		seed := c.Rng.Int63n(90000000)
 		jobs = append(jobs, jobT{line: fmt.Sprintf("scn default0 %d", seed), kind: "default0", seed: seed})
 	}
+	for i := 0; i < ndef/2; i++ { // a transfer that stalls for 5 s: generated re-request through reissuePackChan
+		seed := c.Rng.Int63n(90000000)
+		jobs = append(jobs, jobT{line: fmt.Sprintf("scn stall %d", seed), kind: "stall", seed: seed})
+	}
 	c.Rng.Shuffle(len(jobs), func(i, j int) { jobs[i], jobs[j] = jobs[j], jobs[i] })
 	// ---- batches, each in its own child process
 	const bsz = 24
@@ -495,6 +510,12 @@ func c12(c *Ctx) {
 			e = len(jobs)
 		}
 		batches = append(batches, &batch{jobs: jobs[i:e]})
+	}
+	if !c.Quick() { // the witnesses of the two recorded findings, each in a server of its own (they wedge it)
+		for _, k := range []string{"reuse", "noread"} {
+			seed := c.Rng.Int63n(90000000)
+			batches = append(batches, &batch{jobs: []jobT{{line: fmt.Sprintf("scn %s %d", k, seed), kind: k, seed: seed}}})
+		}
 	}
 	var wg sync.WaitGroup
 	sem := make(chan struct{}, 3)
